@@ -122,6 +122,83 @@ func blankPattern(m gen.ArmMember) string {
 	return "member blank-pattern ts,uid,gid,mode=" + string([]byte{f(m.TS), f(m.UID), f(m.GID), f(m.Mode)})
 }
 
+// auditMembers turns the alphabet-audit delta into well-formed members and member counts.
+func auditMembers() (ms []gen.ArmMember, counts []int) {
+	mk := func(name, ts, uid, gid string, data []byte) {
+		ms = append(ms, gen.ArmMember{Name: name, TS: ts, UID: uid, GID: gid, Mode: "100644", Data: data})
+	}
+	fill := func(n int, pat string) []byte {
+		d := make([]byte, n)
+		for i := range d {
+			d[i] = pat[i%len(pat)]
+		}
+		return d
+	}
+	fits := func(v int64, w int) (string, bool) {
+		t := fmt.Sprint(v)
+		return t, v >= 0 && len(t) <= w
+	}
+	// new integers: data sizes, numeric column values, name lengths, member counts
+	for _, v := range gen.AuditInts(0, 1<<62, 12) {
+		if v <= 4<<20 {
+			mk("size", "1", "2", "3", fill(int(v), "ab`\n!<arch>\n"))
+		}
+		ts, ok1 := fits(v, 12)
+		id, ok2 := fits(v, 6)
+		if ok1 {
+			if !ok2 {
+				id = "7"
+			}
+			mk("num", ts, id, id, []byte("x"))
+		}
+		if v >= 1 && v <= 16 {
+			mk("abcdefghijklmnop"[:v], "1", "2", "3", []byte("xy"))
+			if v >= 2 {
+				mk("abcdefghijklmnop"[:v-1]+"/", "1", "2", "3", []byte("xy"))
+			}
+		}
+		if v >= 4 && v <= 2000 {
+			counts = append(counts, int(v))
+		}
+	}
+	// new integers read as bit widths: values around 2^n
+	for _, n := range gen.AuditInts(2, 62, 9) {
+		for _, v := range []int64{1<<uint(n) - 1, 1 << uint(n), 1<<uint(n) + 1} {
+			if ts, ok := fits(v, 12); ok {
+				id, ok2 := fits(v, 6)
+				if !ok2 {
+					id = "7"
+				}
+				mk("bits", ts, id, id, []byte("x"))
+			}
+			if v <= 1<<20 {
+				mk("bitsize", "1", "2", "3", fill(int(v), "z"))
+			}
+		}
+	}
+	// new strings: names, name prefixes / suffixes, data; digit strings as column values
+	okName := func(n string) bool {
+		t := strings.TrimSuffix(n, "/")
+		return len(n) <= 16 && t != "" && t[0] > ' ' && t[0] < 0x7f && t[len(t)-1] > ' ' && t[len(t)-1] < 0x7f
+	}
+	for _, t := range gen.AuditStrings(nil, 8) {
+		for _, n := range []string{t, t + "x", "x" + t, t + "/", t + ".tar"} {
+			if okName(n) {
+				mk(n, "1", "2", "3", []byte(t))
+			}
+		}
+		if len(t) <= 12 && strings.Trim(t, "0123456789") == "" {
+			id := t
+			if len(id) > 6 {
+				id = "7"
+			}
+			mk("numtext", t, id, id, []byte("x"))
+		}
+		mk("data", "1", "2", "3", fill(5, t))
+	}
+	return ms, counts
+}
+
 // archives lists every sequence of 0..maxN shape indices.
 func archives(nShapes, maxN int) [][]int {
 	out := [][]int{{}}
@@ -425,6 +502,52 @@ func Run(r *mc.Run) {
 			}
 			return !r.Expired()
 		})
+
+	// ---- scenario 1c: alphabet audit - literals a change introduced into the code under test (none on the
+	// unchanged tree, then this scenario does not exist) become member data sizes, numeric column values (also read
+	// as bit widths), name lengths, names / name prefixes / suffixes, data fillers, and member counts ----
+	am, counts := auditMembers()
+	if len(am)+len(counts) > 0 {
+		r.Extra["alphabet_audit"] = map[string]interface{}{"members": len(am), "member_counts": counts}
+		r.Scenario("audit-members", map[string]interface{}{"audit_members": len(am), "member_counts": counts, "positions": posNames, "readerat_conventions": 2},
+			len(am)+len(counts), func(shard int, st *mc.Stats) bool {
+				lim := limiter{}
+				var sets [][]gen.ArmMember
+				if shard < len(am) {
+					m := am[shard]
+					sets = [][]gen.ArmMember{{m}, {m, next}, {prev, m}, {prev, m, next}}
+				} else {
+					n := counts[shard-len(am)]
+					ms := make([]gen.ArmMember, n)
+					for i := range ms {
+						ms[i] = gen.ArmMember{Name: fmt.Sprintf("m%d", i%1000), TS: "1", UID: "2", GID: "3", Mode: "644", Data: []byte("abc")[:i%3]}
+					}
+					sets = [][]gen.ArmMember{ms}
+				}
+				for _, ms := range sets {
+					b := gen.ArmBuild(ms)
+					exp := expectAll(ms)
+					for conv := 0; conv < 2; conv++ {
+						for _, ops := range schedules(len(ms))[:2] {
+							_, f := runOps(b, exp, conv, ops)
+							st.Evals++
+							st.Traces++
+							st.Transitions += int64(len(ops))
+							if f != nil {
+								st.Class("violation:" + f.clause)
+								if lim.ok(f.clause + fmt.Sprint(conv)) {
+									record(st, checkSeq("audit-members", In{Members: ms, Conv: conv, Ops: ops}))
+								}
+							} else {
+								st.Class("ok")
+							}
+						}
+					}
+					st.Nontrivial++
+				}
+				return !r.Expired()
+			})
+	}
 
 	// ---- scenario 2: every operation sequence ----
 	type plan struct {
